@@ -83,8 +83,20 @@ static rc::Gen<Case> genCase() {
         mg::ShapeSpec s = *mg::genShape(2);
         if (s.family <= 2 && s.refine.size() < 3) s.family = 3, s.param = *irange(0, 2);  // tiny solids are mostly degenerate here
         mg::Placement pl = *mg::genPlacement(true);
-        c.mesh = mg::place(mg::build_shape(s), pl);
+        TriMesh base = mg::build_shape(s);
         c.shape = s.describe();
+        if (*irange(0, 3) == 0) {
+            // hub with lobes glued on its faces: cycles of three edges that bound no face (waists), next to each other when two
+            // lobes sit on a tetrahedral hub
+            mg::ShapeSpec h;
+            h.family = *rc::gen::element(0, 0, 0, 1, 4);
+            h.param = 3;
+            h.sx = *uniform(0.6, 1.6), h.sy = *uniform(0.6, 1.6), h.sz = *uniform(0.6, 1.6);
+            auto lobes = *mg::genLobes();
+            base = mg::with_lobes(mg::build_shape(h), lobes);
+            c.shape = "lobed:" + h.describe() + " lobes=" + std::to_string(lobes.size());
+        }
+        c.mesh = mg::place(base, pl);
         c.lmin_factor = *rc::gen::element(0.2, 0.3, 0.4, 0.5, 0.6, 0.8, 0.95);
         c.ops = *rc::gen::container<std::vector<Op>>(genOp());
         return c;
@@ -260,6 +272,20 @@ static std::string run(const Case& k, vf::Ctx& ctx) {
         if (threw) {
             // a refinement pass may give up with mesh_integrity_exception (the solver then stops); history ends
             ctx.count(std::string("ended_by_exception_in_") + OPN[o.kind]);
+            {
+                // "reports failure by exception": the surface the failed command leaves behind must still be the closed manifold
+                // the statement talks about (combinatorial clauses and bookkeeping only)
+                ct::TopoOpts eo;
+                eo.check_cached_normals = false;
+                eo.check_positive_volume = false;
+                std::string es = ct::topo_check(C, eo);
+                ctx.count(es.empty() ? "state_valid_after_exception" : "state_broken_after_exception");
+                if (!es.empty()) {
+                    std::ostringstream os;
+                    os << "step " << step << " (" << OPN[o.kind] << ") gave up with an exception (" << what << ") and left a surface that is no closed manifold: " << es;
+                    return os.str();
+                }
+            }
             if (getenv("VERIF_DEBUG")) fprintf(stderr, "exception in %s: %s\n", OPN[o.kind], what.c_str());
             break;
         }
@@ -321,6 +347,7 @@ static std::string run(const Case& k, vf::Ctx& ctx) {
     }
     const bool nontrivial = kinds_effective.count(SPLIT) + kinds_effective.count(REFINE) > 0 && kinds_effective.count(SWAP) + kinds_effective.count(REFINE) > 0 &&
                             kinds_effective.size() >= 2 && op_on_created;
+    if (k.shape.rfind("lobed:", 0) == 0) ctx.count("start_mesh_with_waists");
     if (op_on_created) ctx.count("history_op_on_face_created_earlier");
     if (rebase_then_op) ctx.count("history_op_after_rebase");
     if (reused_slot) ctx.count("history_op_reusing_free_slot");
